@@ -305,6 +305,18 @@ fn gen_case(rng: &mut Rng, w: &World) -> Case {
         };
         return Case { ident, op };
     }
+    if w.halves && rng.chance(1, 6) {
+        // union-vs-single-profile probe: covered by the two half profiles together only
+        let mut attrs = vec![Attribute::DisplayName];
+        if rng.chance(1, 2) {
+            attrs.push(Attribute::Description);
+        }
+        let classes: Vec<String> = if rng.chance(3, 4) { vec!["object".into(), "person".into(), "account".into()] } else { vec!["object".into()] };
+        return Case {
+            ident: IdentSpec::User(0, 1),
+            op: Op::Create { ents: vec![NewEntSpec { uuid: Some(wu(0x620)), classes, name: Some("c24half".into()), attrs }] },
+        };
+    }
     let guided = rng.chance(3, 5);
     let enabled = |k: Kind| -> Vec<&AcpSpec> { w.acps.iter().filter(|a| a.kind == k && a.enabled).collect() };
     let op = match rng.below(20) {
@@ -666,6 +678,9 @@ async fn run_case(cx: &mut Ctx<'_>, case: &Case) {
                     return;
                 }
             };
+            if ml.iter().any(|m| matches!(m, ModSpec::Purged(Attribute::Class))) {
+                cx.rep.count("request:purge-class");
+            }
             // decision level
             let real = txn.get_accesscontrols().modify_allow_operation(&me, &ents).expect("modify_allow_operation");
             let es_txt = if ents.is_empty() { "-".to_string() } else { ents.iter().map(|e| ent_model(cx.n, e)).collect::<Vec<_>>().join("^") };
